@@ -29,6 +29,10 @@ CHECKS = {
          "exhaustive fault catalogue applied at every applicable position of spec-built hellos; oracle on error class, alert bytes, Close and readability",
          "Sixty fault kinds (every rule of the property statement) are applied at every applicable position of each base hello, including multi-fault pairs and +-1 on every length field of outer and re-sealed inner hellos and a record cut at every byte; for each the real NewConn must abort with an admissible class, write exactly the matching fatal alert, close the transport and leave nothing readable.",
          "trusts tlsref/hpkeref; admissible classes per fault from the statement and draft §5.1/§7/§7.1; length mutations that leave a well-formed hello may be handled transparently", "§3 C04"),
+ "C05": ("exploration", "E1 enum",
+         "exhaustive small-scope enumeration of syntactically valid ClientHellos x key sets x following record streams; byte-identity oracle plus crypto/tls as independent SNI/ALPN extractor",
+         "Every ordered selection of up to 3 (thorough: 4) extensions from a 12-item pool x legacy versions x session ids x cipher-suite lists x compression lists x key sets {none, unrelated, same id}, plus 'no extensions block', plus all record sequences up to depth 3 (4) after the hello and backend->client writes, are run through the real Conn; forwarded bytes must equal the client's bytes (record-header version excepted) and ServerName/ALPN must equal what crypto/tls extracts.",
+         "crypto/tls as independent extractor; SNI name_type 0 only, ALPN names non-empty", "§3 C05"),
 }
 
 NOT_YET = {}
